@@ -55,13 +55,14 @@ THEOREMS = ["AurelVerif.C14." + t for t in (
     "single_row", "temporal_key_last_wins", "temporal_key_cases", "no_temporal_key_raises")]
 MODULE_B = "AurelVerif.Props.C14b"
 THEOREMS_B = ["AurelVerif.C14." + t for t in (
-    "split_last_call_has_all_estimates", "split_full_estimates", "splitHypD_t1", "splitHypD_E2",
+    "split_last_call_has_all_estimates", "split_full_estimates", "split_full_estimates_plain", "splitHypD_t1", "splitHypD_E2",
     "full_estimates_exact_is_false",
     "later_calls_keep_columns", "splitHypNoFb_E2", "split_without_feedback_is_false",
     "one_row_function", "step_noninterference", "step_noninterference_any_kwargs",
     "columns_permuted_together", "input_columns_preserved", "input_columns_preserved_always")]
 LEAN_FILES = ["AurelVerif/Props/C14.lean", "AurelVerif/Props/C14b.lean", "AurelVerif/Lemmas/Table.lean",
               "AurelVerif/Lemmas/C14FullRow.lean", "AurelVerif/Lemmas/C14Full.lean", "AurelVerif/Lemmas/C14Full2.lean",
+              "AurelVerif/Lemmas/C14FullIndep.lean",
               "AurelVerif/Lemmas/C14Stale.lean", "AurelVerif/Lemmas/C14Perm.lean", "AurelVerif/Model/Table.lean",
               "Driver/C14.lean"]
 
@@ -1187,7 +1188,7 @@ def run(ctx):
                     "numpy: np.array(list) copies values exactly; array_equal is exact",
                     "the harness's tagged inputs make every reference cell distinct, so identity by value is identity"]
     ctx.assumptions += ["calc/cust/est are abstract deterministic functions of one row's dictionary: what AurelCore computes inside a step is C01-C10's subject",
-                        "split-invariance theorem: previously computed columns fed back as frozen inputs give the same values (hypothesis FeedbackOK = property C01), request names distinct",
+                        "split-invariance theorems: previously computed columns fed back as frozen inputs give the same values (hypothesis FeedbackOK / FeedbackDep = property C01; FeedbackDep lets an item read the custom variables requested before it), request names distinct, estimate column names k_e new and injective",
                         "sortable temporal cells: `<` is a strict weak order (no NaN)"]
     # 2-3. prove + audit
     ctx.prove(MODULE, THEOREMS)
@@ -1251,6 +1252,6 @@ def replay(ctx, obj):
 MANIFEST = {
     "category": "proof",
     "technique": "Lean 4 theorems over a hand-written executable model of over_time/process_single_timestep (association-list tables, abstract per-row comp/cust/est functions, stable insertion sort), tied to the real code by canonical-table correspondence with per-row distinct inputs and tagged custom functions",
-    "text": "Proof for all tables (any number n >= 1 of rows, any row order, any columns) and all request lists: every stored cell of a requested variable is rel[v] of an AurelCore whose data is a function of that row's own dictionary (no other row occurs; stated also as non-interference between tables that agree on one row); every new estimate column k_e is the estimator applied row by row to column k, for input and computed scalars alike; when the call computes anything, the output is the column view of the input rows stably sorted by the last-present temporal key (Perm + Pairwise + stability), every row processed on its own, so all columns are permuted together and input columns are preserved cell by cell; every consecutive split of vars ++ estimates into successive calls returns exactly the one-call table (column order included) under explicit hypotheses (distinct variable names that are not temporal names, estimators return scalars, array rank constant per column, strict weak order on the temporal cells, and the C01 hypothesis FeedbackOK: a column computed earlier and fed back as frozen input does not change later values); single row and all temporal-key combinations. The model is tied to aurel.over_time by comparing, cell by cell and in dict order, canonical identity tables (each real cell matched to the fresh-AurelCore reference it equals) on random scenarios: 1-7 rows, shuffled, ties, every temporal-key combination, built-in names, tagged custom variable functions and estimators (valid and invalid), pre-existing estimate columns, AurelCore keyword options, 1-3 calls, plus malformed tables (exceptions).",
-    "note": "Trusted: Lean kernel + propext/Classical.choice/Quot.sound; the hand-written model Model/Table.lean (validated by correspondence, 300 scenarios quick / 5000 thorough); what AurelCore computes inside one step is abstract (C01-C10). Two statements of the property text are false in full generality and are proven so from witnesses replayed on the real code (reported as KNOWN-FINDING): estimates requested in an earlier call than a variable do not cover that variable; a call with nothing new returns the table unsorted. Custom variables as frozen inputs of the step (independent of clear_cache_every_nbr_calc) are stated by per_step_frozen_customs and checked with customs named like built-in keys. Not covered by a theorem (correspondence and oracle only): successive calls that each pass the full estimates list; a custom named like a built-in requested in a LATER call than built-ins that read it (outside FeedbackOK).",
+    "text": "Proof for all tables (any number n >= 1 of rows, any row order, any columns) and all request lists: every stored cell of a requested variable is rel[v] of an AurelCore whose data is a function of that row's own dictionary (no other row occurs; stated as non-interference between tables that agree on one row and, in strong form, as ONE row function for all tables with the same column names and scalar keys: the complete output row of a step - input cells, variables, estimates - is a function of that step's input dictionary alone, whatever the other steps, their number and positions are, for every value of the AurelCore keyword options, clear_cache_every_nbr_calc included); every new estimate column k_e is the estimator applied row by row to column k, for input and computed scalars alike; when the call computes anything, the output is the column view of the input rows stably sorted by the last-present temporal key (Perm + Pairwise + stability), stated also with ONE explicit permutation sigma of the row indices applied to every input column and every computed column (all columns permuted together), every input column preserved cell by cell (out[k][j] = in[k][sigma[j]]; preserved in every case, also when nothing is computed); every consecutive split of vars ++ estimates into successive calls returns exactly the one-call table (column order included) under explicit hypotheses (distinct variable names that are not temporal names, estimators return scalars, array rank constant per column, strict weak order on the temporal cells, and the C01 hypothesis FeedbackOK: a column computed earlier and fed back as frozen input does not change later values); ANY sequence of calls that pass estimates in every call and whose last call passes all of them - in particular every call passing the FULL estimates list, the variable requests cut into any number of calls - returns the one-call table as a Python dict (same keys, same columns; the order of the estimate columns provably differs), under the dependency-aware feedback hypothesis FeedbackDep (an item may read the custom variables requested before it: a custom press followed by built-ins that read it, customs that read customs) plus consistent estimator names and estimate column names that are new and identify (key, estimator); a column computed by an earlier call is never recomputed by later calls (no feedback hypothesis); single row and all temporal-key combinations. The model is tied to aurel.over_time by comparing, cell by cell and in dict order, canonical identity tables (each real cell matched to the fresh-AurelCore reference it equals) on random scenarios: 1-7 rows, shuffled, ties, every temporal-key combination, built-in names, tagged custom variable functions and estimators (valid and invalid), custom functions that read other custom variables, pre-existing estimate columns, AurelCore keyword options, 1-5 calls (consecutive splits, every call with the full estimates list, free distributions), plus fixed 3/4/5-call scenarios with the full estimates list in every call, duplicate temporal keys and chained customs, plus malformed tables (exceptions).",
+    "note": "Trusted: Lean kernel + propext/Classical.choice/Quot.sound; the hand-written model Model/Table.lean (validated by correspondence, 300 scenarios quick / 5000 thorough); what AurelCore computes inside one step is abstract (C01-C10). Statements of the property text that are false in full generality are proven false from witnesses replayed on the real code: estimates requested in an earlier call than a variable do not cover that variable (KNOWN-FINDING); a call with nothing new returns the table unsorted (KNOWN-FINDING); a custom variable requested in a LATER call than a built-in that reads it does not reach the column computed earlier (split_without_feedback_is_false, witness press_n then a custom press replayed as a correspondence obligation and recorded as CANDIDATE-FINDING in the evidence notes; it becomes a KNOWN-FINDING line once known_findings.json has an entry with match {kind: split_custom_after_reader}); with the full estimates list in every call the final table equals the one-call table as a dict but not in column order (full_estimates_exact_is_false; the correspondence compares the real column order with the model in both cases). Custom variables as frozen inputs of the step (independent of clear_cache_every_nbr_calc) are stated by per_step_frozen_customs and checked with customs named like built-in keys. The one-row-function form of non-interference assumes the same scalar-key list for both tables (the code decides it on the first row only; constant array rank per column makes it independent of the row). Not covered by a theorem (correspondence and oracle only): request lists that name the same variable twice; exact column order of non-consecutive splits beyond the model run; sequences in which an estimator is passed only by calls before the last call that adds a scalar variable (there columns are missing: split_any_order_is_false).",
 }
